@@ -204,9 +204,10 @@ def search(ctx):
         p = rec["pipeline"]
         # (a) single vs closed form
         if cf and math.isfinite(cf["DL"]):
-            if "formula" not in rec or len(labels) == len(rec["tree"]):
-                # the formula entry point builds its own tree (e.g. a0*x - x becomes ['*','x','+','-1.0','a0']): same function, same
-                # likelihood and parameter code, but the tree code is that of the labels it returns
+            if True:
+                # the formula entry point builds its own tree (e.g. a0*x - x becomes ['*','x','+','-1.0','a0'], possibly with another number
+                # of nodes): it must be the same FUNCTION -- same likelihood and parameter code as the closed form of the formula given --
+                # while the tree code is that of the labels it returns
                 want_dl = cf["DL"] if "formula" not in rec else cf["nll"] + cf["codelen"] + fitlib.aifeyn_of(labels)
                 if abs(rec["nll"] - cf["nll"]) > TOL or abs(rec["DL"] - want_dl) > TOL + (0 if "formula" not in rec else 1e-9):
                     rep.fail("failing-input", "single-tree fit of %r returns (-logL, DL) = (%.5f, %.5f) but the closed form is (%.5f, %.5f)" % (
